@@ -119,7 +119,7 @@ class TLCResult:
             self.states, self.distinct = int(m[-1][0]), int(m[-1][1])
         m = re.search(r"Finished computing initial states: (\d+) distinct state", out)
         self.init_states = int(m.group(1)) if m else 1
-        self.violated = ("is violated" in out) or ("Error: Deadlock" in out) or ("Temporal properties were violated" in out)
+        self.violated = rc in (12, 13) or ("is violated" in out) or ("Error: Deadlock" in out) or ("Temporal properties were violated" in out)
         self.error = (rc not in (0, 12, 13)) and not self.violated
 
     def printed(self, tag):
@@ -293,7 +293,7 @@ def run_harness(engine, scen_file, out_prefix, workers=None, extra=(), timeout=1
         p = _run_harness_once(engine, scen_file, out_prefix, w, extra, timeout, tags, env)
         if p.returncode == 0:
             break
-        if p.returncode in (2, 3):
+        if p.returncode in (64, 65):
             raise Infra("harness %s failed rc=%d:\n%s\n%s" % (engine, p.returncode, p.stdout[-2000:], p.stderr[-4000:]))
         # the process died: find the scenarios in flight
         cands = set()
@@ -306,14 +306,19 @@ def run_harness(engine, scen_file, out_prefix, workers=None, extra=(), timeout=1
             except (OSError, ValueError):
                 pass
         lines = open(scen_file).read().splitlines()
-        culprits = []
-        for c in sorted(cands):
-            one = scen_file + ".one"
+        import concurrent.futures as cf
+
+        def alone(c):
+            one = "%s.one%d" % (scen_file, c)
             with open(one, "w") as f:
                 f.write(lines[c] + "\n")
-            q = _run_harness_once(engine, one, out_prefix + ".one", 1, extra, 300, tags, env)
-            if q.returncode not in (0, 2, 3):
-                culprits.append((c, (q.stderr or "")[-600:]))
+            q = _run_harness_once(engine, one, "%s.one%d" % (out_prefix, c), 1, extra, 300, tags, env)
+            return c, q
+        culprits = []
+        with cf.ThreadPoolExecutor(max_workers=8) as ex:
+            for c, q in ex.map(alone, sorted(cands)):
+                if q.returncode not in (0, 64, 65):
+                    culprits.append((c, (q.stderr or "")[-600:]))
         if not culprits:
             if w > 1:
                 # nothing crashes alone: probably memory pressure from running in parallel; retry narrower
@@ -327,6 +332,10 @@ def run_harness(engine, scen_file, out_prefix, workers=None, extra=(), timeout=1
             lines[c] = '{"skip":true}'
         with open(scen_file, "w") as f:
             f.write("\n".join(lines) + "\n")
+        if len(crashed) >= 3:
+            # enough reproducible crashes for a verdict; do not grind through the rest of the batch
+            log("harness %s: %d scenarios kill or hang the process on their own; batch abandoned" % (engine, len(crashed)))
+            return [], {"crashed": crashed, "aborted": True}
     else:
         raise Infra("harness %s keeps dying" % engine)
     files = sorted(f for f in (out_prefix + ".%d.ndjson" % i for i in range(workers or WORKERS)) if os.path.exists(f))
